@@ -64,10 +64,7 @@ def check(c):
     rng = np.random.default_rng(c['seed'])
     D, w, grid, Q, cell = build(c, rng)
     tag = f"[{'periodic' if c['cell'] else 'free'},{c['loc']}]"
-    try:
-        est = fit(c, D, w, grid, cell)
-    except Exception as e:
-        expect(False, f'post[C17]:fit-succeeds-on-a-well-formed-configuration{tag}', repr(e)[:200])
+    est = fit(c, D, w, grid, cell)       # an exception raised by the code is reported by the runner as raises:<Exc>@<function>
     wn = w / w.sum()
     dist = ppd(D, grid, squared=True, cell_length=cell)
     lab = np.argmin(dist, axis=1)
